@@ -84,6 +84,9 @@ func sortedCopy(l []string) []string {
 func normProcs(m map[string]procObs) map[string]procObs {
 	r := map[string]procObs{}
 	for k, v := range m {
+		if !v.On { // absent and "off" are the same; the model lists every key the table could hold
+			continue
+		}
 		v.Hosts = sortedCopy(v.Hosts)
 		r[k] = v
 	}
@@ -178,7 +181,7 @@ func runBehaviour(b behaviour) (res replayResult) {
 			d("tab", normTab(st.Tab), tab)
 			d("chanlen", st.Chanlen, w.backlog())
 			d("blocked", st.Blocked, blocked)
-			d("procs", normProcs(st.Procs), procs)
+			d("procs", normProcs(st.Procs), normProcs(procs))
 			d("quiescent", st.Q, q)
 			if st.A == "Ctl" && st.Ev != nil {
 				d("event", normEvt(*st.Ev), ev)
